@@ -83,20 +83,28 @@ theorem C12_fault_illegal_same (fault : Fault) (fs : FS) (es : List Entry)
 
 /-- **C12_illegal_step.** The only ways one entry produces the illegal-slug error: it is named,
 and either `NewUnpackInfo` refused it, or it is a symlink entry for which `filepath.Rel` failed or
-`validSymlink` said no. -/
+the link test of `Unpack` (`unpackLinkOK`: `validSymlink`, and an absolute target only when
+allow-listed) said no; `C12_link_refusal_causes` takes that test apart. -/
 theorem C12_illegal_step (st : UState) (e : Entry) (body : Str) (be : Bool)
     (h : (unpackEntry cwd allow priv dst st e body be).2 = some .illegal) :
     e.name ≠ [] ∧
     (newUnpackInfo st.fs dst e = none ∨
      (e.isSymlink = true ∧ ∀ path, newUnpackInfo st.fs dst e = some path →
         (pathRel dst path = none ∨
-         ∃ ln, pathRel dst path = some ln ∧ validSymlink cwd allow dst ln e.link = false))) :=
+         ∃ ln, pathRel dst path = some ln ∧ unpackLinkOK cwd allow dst ln e.link = false))) :=
   unpackEntry_illegal_cause cwd allow priv dst st e body be h
+
+/-- **C12_link_refusal_causes.** The link test of `Unpack` fails for one of two reasons:
+`validSymlink` said no, or the target is absolute and not allow-listed. -/
+theorem C12_link_refusal_causes (ln t : Str) (h : unpackLinkOK cwd allow dst ln t = false) :
+    validSymlink cwd allow dst ln t = false ∨
+      (isAbs t = true ∧ allowedTarget allow (pathAbs cwd dst) (pathClean t) = false) :=
+  unpackLinkOK_false h
 
 /-- **C12_illegal_has_culprit.** An illegal-slug result of `Unpack` has a culprit: a named entry
 of the archive which, examined in the state the loop reached after the entries before it, was
 refused by `NewUnpackInfo`, or is a symlink entry whose `filepath.Rel` failed or whose
-`validSymlink` check said no. -/
+link test (`unpackLinkOK`) said no. -/
 theorem C12_illegal_has_culprit (fs : FS) (es : List Entry)
     (h : (unpack cwd allow priv dst .none fs es).2 = .illegal) :
     ∃ e ∈ es, e.name ≠ [] ∧ ∃ pre post st,
@@ -105,7 +113,7 @@ theorem C12_illegal_has_culprit (fs : FS) (es : List Entry)
       (newUnpackInfo st.fs dst e = none ∨
        (e.isSymlink = true ∧ ∀ path, newUnpackInfo st.fs dst e = some path →
           (pathRel dst path = none ∨
-           ∃ ln, pathRel dst path = some ln ∧ validSymlink cwd allow dst ln e.link = false))) := by
+           ∃ ln, pathRel dst path = some ln ∧ unpackLinkOK cwd allow dst ln e.link = false))) := by
   obtain ⟨st', hl⟩ := (unpack_illegal_iff cwd allow priv dst .none fs es).1 h
   obtain ⟨pre, e, post, st, hes, hpre, hstep⟩ :=
     unpackLoop_illegal_culprit cwd allow priv dst 0 _ st' es hl
@@ -168,6 +176,14 @@ example : (unpack [] [] false c12dst (.header 1) c12fs [c12dir, c12escLink, c12f
 example : newUnpackInfo c12fs c12dst c12escName = none := by decide
 example : newUnpackInfo c12fs c12dst c12escLink = some "/t/dst/bad".toList ∧
     pathRel c12dst "/t/dst/bad".toList = some "bad".toList ∧
-    validSymlink [] [] c12dst "bad".toList c12escLink.link = false := by decide
+    validSymlink [] [] c12dst "bad".toList c12escLink.link = false ∧
+    unpackLinkOK [] [] c12dst "bad".toList c12escLink.link = false := by decide
+
+/-- the second cause of `C12_link_refusal_causes`: an absolute target inside the destination passes
+`validSymlink`, is not allow-listed, and the run reports an illegal slug -/
+def c12absLink : Entry := ⟨"abs".toList, tSymlink, 0o777, 5, "/t/dst/d".toList, []⟩
+example : validSymlink [] [] c12dst "abs".toList c12absLink.link = true ∧
+    unpackLinkOK [] [] c12dst "abs".toList c12absLink.link = false ∧
+    (unpack [] [] false c12dst .none c12fs [c12dir, c12absLink, c12file]).2 = .illegal := by decide
 
 end Slug
